@@ -165,6 +165,12 @@ var c09Sig = []struct{ def, call string }{
 	{"(defn f [n h] (hset h n n) (cond (<= n 0) (len (keys h)) @(f (- n 1) h)@))", "(f N (hash))"},
 	{"(def p (package \"p\" (defn F [n a] (cond (<= n 0) a @(F (- n 1) (+ a n))@)))) ", "(p.F N 0)"},
 	{"(defn f [n] (cond (<= n 0) 0 (> n 1000000) @(f)@ @(f (- n 1))@))", "(f N)"},
+	// typed funcs: an argument of the wrong type in the tail self call; arguments passed by name, in either order
+	{"(func g [n:int64 s:string] [r:string] (cond (== n 0) s @(g (- n 1) (cond (== n 2) 5 \"b\"))@))", "(g N \"a\")"},
+	{"(func g [n:int64 a:int64] [r:int64] (cond (== n 0) a @(g (- n 1) (cond (== n 3) 1.5 (+ a n)))@))", "(g N 0)"},
+	{"(func g [n:int64 a:int64] [r:int64] (cond (== n 0) a @(g n:(- n 1) a:(+ a n))@))", "(g n:N a:0)"},
+	{"(func g [n:int64 a:int64] [r:int64] (tr 1 n) (cond (== n 0) a @(g a:(+ a (tr 2 n)) n:(- n (tr 3 1)))@))", "(g N 0)"},
+	{"(func g [n:int64 a:int64] [r:int64] (cond (== n 0) a @(g n:(- n 1) b:(+ a n))@))", "(g N 0)"},
 	// the tail position is reached through a user macro
 	{"(defmac ifelse9 [c a b] ^(cond ~c ~a ~b)) (defn f [n a] (ifelse9 (<= n 0) a @(f (- n 1) (+ a n))@))", "(f N 0)"},
 	{"(defmac unless9 [c b1 b2] ^(cond ~c nil (begin ~b1 ~b2))) (defn f [n a] (let [m (- n 1)] (unless9 (< n 0) (tr 1 n) (cond (<= n 0) a @(f m (+ a n))@))))", "(f N 0)"},
